@@ -443,6 +443,34 @@ def operator_func(name):
     return Py(g, 'operator.' + name)
 
 
+def _getattr(sk, n, ob, k, *d):
+    """getattr(obj, name[, default]) on modules of the package, abstract objects (instance attributes, then the class's methods,
+    properties and class-level attributes) and dictionaries of attributes"""
+    if isinstance(ob, ModRef):
+        if ob.name.startswith('ext:'):
+            raise Unsupported('getattr on the external module %s' % ob.name)
+        return sk.lookup_global(ob.name, k)
+    if isinstance(ob, Bag):
+        if k in ob._a:
+            return ob._a[k]
+        if isinstance(ob._cls, tuple):
+            fi = sk.m.lookup(ob._cls, k, 'methods')
+            if fi is not None:
+                return FnRef(fi, bound=ob)
+            g = sk.m.lookup(ob._cls, k, 'getters')
+            if g is not None:
+                return sk.call(g, [ob], {})
+            cv = sk.class_attr(ob._cls, k)
+            if cv is not NOATTR:
+                return cv
+        if d:
+            return d[0]
+        raise Violation('SK2', 'getattr: no attribute %s' % k, n)
+    if d:
+        return d[0]
+    raise Unsupported('getattr on %s' % type(ob).__name__)
+
+
 def _reduce(sk, n, f, seq, *init):
     items = list(sk.iterate(seq, n))
     if init:
@@ -1434,7 +1462,7 @@ BUILTINS = {
     'enumerate': Py(lambda sk, n, x, *s: list(enumerate(sk.iterate(x, n), *s)), 'enumerate'),
     'isinstance': Py(_isinst, 'isinstance'), 'list': Py(lambda sk, n, *a: list(sk.iterate(a[0], n)) if a else [], 'list'), 'tuple': Py(lambda sk, n, *a: tuple(sk.iterate(a[0], n)) if a else (), 'tuple'),
     'shallowcopy': Py(_shallowcopy, 'copy.copy'), 'id': Py(lambda sk, n, x: id(x), 'id'), 'setattr': Py(lambda sk, n, ob, k, v: ob._a.__setitem__(k, v), 'setattr'),
-    'getattr': Py(lambda sk, n, ob, k, *d: ob._a[k] if k in ob._a else (d[0] if d else (_ for _ in ()).throw(Violation('SK2', 'getattr: no attribute %s' % k, n))), 'getattr'),
+    'getattr': Py(lambda sk, n, ob, k, *d: _getattr(sk, n, ob, k, *d), 'getattr'),
     'hasattr': Py(lambda sk, n, ob, k: isinstance(ob, Bag) and k in ob._a, 'hasattr'),
     'dict': Py(lambda sk, n, *a, **k: dict(*a, **k), 'dict'), 'deepcopy': Py(_deepcopy_tracked, 'deepcopy'),
     'sum': Py(_sum, 'sum'), 'reversed': Py(lambda sk, n, x: list(reversed(x)), 'reversed'), 'sorted': Py(lambda sk, n, x, **k: _sorted(sk, n, x, **k), 'sorted'),
